@@ -14,18 +14,19 @@ func init() { register("C05", checkC05) }
 
 // watchRoles resolves the functions of the watch pipeline by what they do.
 type watchRoles struct {
-	hubType    *types.Named
-	subsField  *types.Var
-	register   *ssa.Function // inserts into the subscriber map
-	remover    *ssa.Function // deletes from the subscriber map and closes the channel
-	fanout     *ssa.Function // non-blocking send over the subscriber map
-	hubLoop    *ssa.Function // receives from the broadcast channel and (directly or through fanout) fans out
-	cacheAdd   *ssa.Function // called by the sequencer with the new event
-	cacheFind  *ssa.Function // other method of the cache type, called by Watch
-	watchImpl  *ssa.Function // Backend.Watch implementation
-	forwarder  *ssa.Function // per-watch goroutine started by Watch
-	sequencer  *ssa.Function
-	bcastField *types.Var // field holding the broadcast channel
+	hubType       *types.Named
+	subsField     *types.Var
+	register      *ssa.Function // inserts into the subscriber map
+	remover       *ssa.Function // deletes from the subscriber map and closes the channel
+	fanout        *ssa.Function // non-blocking send over the subscriber map
+	hubLoop       *ssa.Function // receives from the broadcast channel and (directly or through fanout) fans out
+	cacheAdd      *ssa.Function // called by the sequencer with the new event
+	cacheAddBatch bool          // .. or with the whole batch
+	cacheFind     *ssa.Function // other method of the cache type, called by Watch
+	watchImpl     *ssa.Function // Backend.Watch implementation
+	forwarder     *ssa.Function // per-watch goroutine started by Watch
+	sequencer     *ssa.Function
+	bcastField    *types.Var // field holding the broadcast channel
 }
 
 func isEventSliceChan(t types.Type) bool {
@@ -151,6 +152,23 @@ func (p *Prog) watchRoles() *watchRoles {
 		return types.Identical(c.Common().Args[1].Type(), types.NewPointer(evType))
 	}) {
 		w.cacheAdd = ch.target.(ssa.CallInstruction).Common().StaticCallee()
+	}
+	if w.cacheAdd == nil {
+		// the batch form: a method that is handed the slice of events
+		for _, ch := range r.SeqRegion.chainsIn(p, func(ins ssa.Instruction) bool {
+			c, ok := ins.(ssa.CallInstruction)
+			if !ok {
+				return false
+			}
+			sc := c.Common().StaticCallee()
+			if sc == nil || sc.Signature.Recv() == nil || len(c.Common().Args) != 2 || sc.Signature.Results().Len() != 0 || sc.Pkg != bp {
+				return false
+			}
+			return types.Identical(c.Common().Args[1].Type(), types.NewSlice(types.NewPointer(evType)))
+		}) {
+			w.cacheAdd = ch.target.(ssa.CallInstruction).Common().StaticCallee()
+			w.cacheAddBatch = true
+		}
 	}
 	if w.cacheAdd == nil {
 		brokenf("watch roles: cache insert of the sequencer not found")
@@ -796,7 +814,10 @@ func checkCacheBeforeBroadcast(p *Prog, r *Roles, w *watchRoles, res *Result) {
 	}
 	isAdd := func(ins ssa.Instruction, fr *frame) bool {
 		c, ok := ins.(*ssa.Call)
-		return ok && c.Common().StaticCallee() == w.cacheAdd && rg.origin(c.Common().Args[1], fr) == ev
+		if !ok || c.Common().StaticCallee() != w.cacheAdd {
+			return false
+		}
+		return w.cacheAddBatch || rg.origin(c.Common().Args[1], fr) == ev
 	}
 	// from the construction of the event: the cache insert must come before any broadcast send / next slot load
 	se, _ := sequencerEvent(p, r)
